@@ -78,3 +78,11 @@ PENDING.pop("C13", None)
 _p("C06", "other",
    "Static necessary conditions of 'every qubit reference resolves to the right physical qubit': taint analysis showing that no consumer (emulator, pyGSTi circuit builder, used-qubit analysis, alias fill-in, result layer) lets a raw alias_index reach arithmetic or an external constructor -- the physical index must come from resolve_qubit; every attribute read on a receiver whose type is known from the visitor convention / constructors / isinstance exists on that type (323-odd typed reads); slice arithmetic is computed only in core/register.py. Does not decide the affine composition start+i*step itself.")
 PENDING.pop("C06", None)
+
+_p("C03", "other",
+   "Narrow structural claim for a numerical property: qubit operands reach the emulator's index arithmetic only through resolve_qubit (taint); every call of a gate's ideal unitary passes the classical arguments splatted positionally; classical and quantum arguments are separated by pairing definition parameters with statement arguments positionally and gates are applied in serialisation order; the backend only receives circuits that passed all three normalising passes and skips gates without a unitary. The bit-twiddling matrix product itself is declined (numerical).")
+PENDING.pop("C03", None)
+
+_p("C18", "other",
+   "Static necessary conditions of 'gate definitions check calls; idle and stretched variants act as specified': positional and keyword calls fill the same ordered dict keyed by parameter names in definition order, mixing and unknown keywords are rejected (the arity and kind checks themselves are decided under C14.2/C14.3); the idle definition takes its parent's parameter list, refuses prepare/measure, and add_idle_gates keeps every gate and adds its idle twin; in stretched_gates no escaping closure refers to a variable the loop rebinds, the wrapper calls its parent's unitary with all arguments but the last splatted, and the parameter list is a copy with exactly one trailing FLOAT. Does not decide numeric equality of the unitaries.")
+PENDING.pop("C18", None)
